@@ -96,7 +96,7 @@ func (p *Program) verifyFunc(t *target) (vc *VC, rep *FuncReport) {
 	if vc.bv {
 		rep.Mode = "64-bit bit-vectors"
 	}
-	x := &Exec{prog: p, vc: vc, pkg: t.pkg, contract: c, fname: rep.Name, counts: map[string]int{}, boxed: map[types.Object]bool{}, safety: c.Opts["safety"]}
+	x := &Exec{prog: p, vc: vc, pkg: t.pkg, contract: c, fname: rep.Name, counts: map[string]int{}, boxed: map[types.Object]bool{}, safety: c.Opts["safety"], aliases: map[types.Object]*lval{}}
 	var body *ast.BlockStmt
 	var ftype *ast.FuncType
 	var node ast.Node
